@@ -1708,6 +1708,41 @@ pub fn check_phases(rep: &mut Report, label: &str, prompt_exit: bool) {
     fill_report(rep, &out, label);
 }
 
+/// C03 (the converse of `c05_step`, at the end of a run): a build whose last script ended with status 0 without
+/// being cancelled has its record on disk when zinoma has exited — also when a signal or a sibling's failure
+/// arrived while the state was being computed or written (the next invocation then skips it)
+pub fn c03_terminal(sys: &Sys, ctx: &mut Ctx) {
+    let cfg = &sys.cfg;
+    if !cfg.real_incremental || cfg.change_budget > 0 || !sys.main_done() {
+        return;
+    }
+    let dir = match &sys.scratch {
+        Some(d) => d.clone(),
+        None => return,
+    };
+    for t in cfg.targets.iter().filter(|t| t.kind == Kind::B && t.has_input) {
+        let last = sys.children().into_iter().filter(|c| c.target == t.name).last();
+        if !matches!(last, Some(ref c) if c.status == Some(0) && !c.killed) {
+            continue;
+        }
+        ctx.count("exits after a script that ended with status 0");
+        let rec = dir.join(".zinoma").join(format!("{}.checksums", t.name));
+        let len = std::fs::metadata(&rec).map(|m| m.len()).unwrap_or(0);
+        if len == 0 {
+            let signalled = sys.events_from(0).iter().any(|e| matches!(e, Ev::Sigterm));
+            ctx.violation(format!("no-record-although-the-script-succeeded: {}", if signalled { "signal while the state was computed or written" } else { "a sibling failed meanwhile" }), format!("{}: the script of {} ended with status 0 and was not cancelled, zinoma has exited, yet {} is missing or empty: the next invocation runs the script again on an untouched tree\nhistory: {:?}", cfg.name, t.name, rec.display(), sys.hist(&t.name)));
+        }
+    }
+}
+
+pub fn check_phases_c03(rep: &mut Report) {
+    let mk = move |_: &Cfg| Checks { step: Box::new(c05_step), terminal: Box::new(move |s, c| { c03_terminal(s, c); observation(s) }) };
+    let dl = deadline(rep, 150, 1800);
+    let out = sweep(phase_cfgs(rep.thorough()).into_iter().filter(|c| c.change_budget == 0).collect(), &mk, dl, 2_000_000);
+    fill_report(rep, &out, "real incremental runner, every phase of the build cycle a parking point: after a signal or a sibling's failure, a script that succeeded is on record");
+    finalize(rep);
+}
+
 /// DESIGN §3.4 self-check: on small configurations the reduced mode (eager relay) and the exact mode
 /// (relay as an action, real capacity) must give the same set of terminal observations; a difference is a
 /// machinery error (the reduction argument would be wrong), never a verdict about zinoma.
